@@ -113,6 +113,7 @@ class Universe:
         self.last_fired = {}          # (eid, hid) -> last event fired by that handler segment
         self.escaped = None
         self.internal_errors = []
+        self.call_origin = {}         # id(event made for call()) -> (caller event id, caller handler id)
         self._build()
 
     # ------------------------------------------------------------------ build
@@ -281,6 +282,10 @@ class Universe:
             import threading
             # only the thread that runs the handlers can be "inside" one
             o, h = self.stack[-1] if (self.stack and threading.get_ident() == self.main_ident) else (0, 0)
+            if id(event) in self.call_origin:
+                # callEvent fires the event inside the manager (first step of the call generator):
+                # it is fired on behalf of the handler that yielded the call
+                o, h = self.call_origin[id(event)]
             self.log.append(line('fire', e=e, n=name, ch=self.chan_str(channels[0]) if channels else '',
                                  p=self.prio_rank.get(extra, 99), c=self._cid(manager), o=o, h=h, f=flags,
                                  x=ref, y=kind, v=v, d=d + (100 if len(channels) > 1 else 0)))
@@ -349,6 +354,8 @@ class Universe:
         args = []
         if spec.get('ch') is not None:
             args.append(self._chan_obj(spec['ch']))
+            if spec.get('ch2') is not None:          # an event fired on two channels
+                args.append(self._chan_obj(spec['ch2']))
         kw = {}
         if spec.get('prio', 0) != 0 or spec.get('explicit_prio'):
             kw['priority'] = self.prio_map[spec.get('prio', 0)]
@@ -468,6 +475,7 @@ class Universe:
                     ev2 = self._make_event(spec)
                     e2 = 0           # its id is assigned when call() fires it (first step of the call generator)
                     awaited = ev2
+                    self.call_origin[id(ev2)] = (e, hid)
                     target = self.comps[spec['on']] if spec.get('on') else comp
                     args = [self._chan_obj(spec['ch'])] if spec.get('ch') is not None else []
                     self.log.append(line('yld', e=e, h=hid, f=1, x=e2, n='call', d=kw.get('timeout', -1)))
